@@ -250,6 +250,8 @@ struct Subject {
     json: HashMap<(u8, Id), Value>,
     /// original plaintext of every indexed blob (type, id)
     blobs: BTreeMap<(u8, String), Vec<u8>>,
+    /// original index listings of every blob: (pack id, offset, length)
+    locs: BTreeMap<(u8, String), BTreeSet<(String, u32, u32)>>,
 }
 
 fn subject(name: &'static str, one_blob: bool, raw: &RawKey) -> Subject {
@@ -279,13 +281,15 @@ fn subject(name: &'static str, one_blob: bool, raw: &RawKey) -> Subject {
         }
     }
     let mut blobs = BTreeMap::new();
+    let mut locs: BTreeMap<(u8, String), BTreeSet<(String, u32, u32)>> = BTreeMap::new();
     for p in index_packs(raw, &store).expect("index") {
         let pack = store.get(FileType::Pack, &p.pack_id.parse().unwrap()).unwrap();
         for b in &p.blobs {
             _ = blobs.insert((b.tpe, b.id.clone()), vkit::decode::open_blob(raw, pack, b).expect("blob"));
+            _ = locs.entry((b.tpe, b.id.clone())).or_default().insert((p.pack_id.clone(), b.offset, b.length));
         }
     }
-    Subject { name, store, model, json, blobs }
+    Subject { name, store, model, json, blobs, locs }
 }
 
 /// every typed read of the faulted store: Err or exactly the original content
@@ -311,6 +315,32 @@ fn observe(sub: &Subject, faulted: &Store) -> Result<(), (String, String)> {
             let want = serde_json::from_value::<IndexFile>(orig.clone()).map(|w| serde_json::to_value(&w).unwrap()).ok();
             if want != Some(got) {
                 return Err(("index".into(), format!("reading index {} returned different content", &hex_id(id)[..8])));
+            }
+        }
+    }
+    // the index as the library rebuilds it from the pack files where the listing disagrees with the
+    // index files (`to_indexed_checked` reads the pack headers): every answer it gives is one of the
+    // original listings
+    if let Ok(chk) = env.open().and_then(rustic_core::Repository::to_indexed_checked) {
+        for ((tpe, id), want) in &sub.locs {
+            let bid: rustic_core::BlobId = id.parse().unwrap();
+            let got = if *tpe == 1 {
+                chk.get_index_entry(&rustic_core::TreeId::from(bid))
+            } else {
+                chk.get_index_entry(&rustic_core::DataId::from(bid))
+            };
+            if let Ok(e) = got {
+                let loc = (e.pack.to_hex().to_string(), e.location.offset, e.location.length);
+                // an answer other than the original listings is acceptable only if it is true: the
+                // bytes at that place of that (possibly replaced) pack file open to this very blob
+                let truthful = || -> bool {
+                    let Some(pack) = e.pack.to_hex().parse().ok().and_then(|pid| faulted.get(FileType::Pack, &pid)) else { return false };
+                    let b = vkit::decode::HBlob { tpe: *tpe, id: id.clone(), offset: loc.1, length: loc.2, uncompressed: e.location.uncompressed_length.map(std::num::NonZeroU32::get) };
+                    vkit::decode::open_blob(&RawKey::from_master(&master_key()), pack, &b).is_ok()
+                };
+                if !want.contains(&loc) && !truthful() {
+                    return Err(("pack-header".into(), format!("after to_indexed_checked blob {}:{} is located at {loc:?}, which does not hold it; stored listings are {want:?}", tpe, &id[..8])));
+                }
             }
         }
     }
